@@ -960,7 +960,11 @@ def run_check(ctx, prop, components, nontrivial, rule, quick_n=120, thorough_n=1
                        "from metadata rewritten while the request is on its way, a third request spending from the new payer; forced revert racing a payment "
                        "from the account it debits; set-metadata with an empty map with / without key and its retry; revert cancelled while waiting for the "
                        "store, then another revert of the same account / the same transaction; graceful Close while a batch is inside InsertLogs, reopen, "
-                       "further writes) x seeded random schedules "
+                       "further writes) + a quarter as many situations with previews, faults and the stop INSIDE an overlap (one reference under several spellings: blanks, tab, "
+                       "newline, no-break space, letter case, NUL; preview of a revert while a real revert of the same transaction is in flight, then a second real "
+                       "revert, with a twin run under the same directed schedule; preview while a write on its source account is committed and not yet persisted, with "
+                       "a twin run in which the preview is submitted as the real write; the k-th lookup of any kind failing; graceful Close with another entry "
+                       "pending behind the batch being written, requests woken by the stop run on) x seeded random schedules "
                        "over every yield point, persistence latency as a scheduling choice, a crash or a store failure in part of the schedules; non-trivial = %s") % (
                            4 if ctx.quick else 6, rule)
     s0 = inputs[0]
